@@ -17,6 +17,7 @@ import (
 	"github.com/mithrandie/csvq/lib/parser"
 	"github.com/mithrandie/csvq/lib/value"
 
+	"github.com/mithrandie/go-text"
 	"github.com/mithrandie/go-text/color"
 	"github.com/mithrandie/go-text/fixedlen"
 )
@@ -158,7 +159,7 @@ func (tx *Transaction) Commit(ctx context.Context, scope *ReferenceScope, expr p
 			}
 
 			if !tx.Flags.ExportOptions.StripEndingLineBreak && !(fileInfo.Format == option.FIXED && fileInfo.SingleLine) {
-				if _, err := fp.Write([]byte(tx.Flags.ExportOptions.LineBreak.Value())); err != nil {
+				if err := writeEndingLineBreak(fp, fileInfo); err != nil {
 					return NewCommitError(expr, err.Error())
 				}
 			}
@@ -184,7 +185,7 @@ func (tx *Transaction) Commit(ctx context.Context, scope *ReferenceScope, expr p
 			}
 
 			if !tx.Flags.ExportOptions.StripEndingLineBreak && !(fileInfo.Format == option.FIXED && fileInfo.SingleLine) {
-				if _, err := fp.Write([]byte(tx.Flags.ExportOptions.LineBreak.Value())); err != nil {
+				if err := writeEndingLineBreak(fp, fileInfo); err != nil {
 					return NewCommitError(expr, err.Error())
 				}
 			}
@@ -218,6 +219,26 @@ func (tx *Transaction) Commit(ctx context.Context, scope *ReferenceScope, expr p
 		return NewCommitError(expr, err.Error())
 	}
 	return nil
+}
+
+// writeEndingLineBreak ends a table file with the line break of that file, in the encoding of that file.
+func writeEndingLineBreak(fp io.Writer, fileInfo *FileInfo) error {
+	enc := fileInfo.Encoding
+	switch enc {
+	case text.UTF8M:
+		// The byte order mark belongs to the beginning of the file only.
+		enc = text.UTF8
+	case text.UTF16BEM:
+		enc = text.UTF16BE
+	case text.UTF16LEM:
+		enc = text.UTF16LE
+	}
+	w, err := text.GetTransformWriter(fp, enc)
+	if err != nil {
+		return err
+	}
+	_, err = w.Write([]byte(fileInfo.LineBreak.Value()))
+	return err
 }
 
 func (tx *Transaction) Rollback(scope *ReferenceScope, expr parser.Expression) error {
